@@ -143,19 +143,25 @@ def do_check(mod, a):
     unlisted = 0
     known_hit = {}
     core.preload()
+    min_budget = float(os.environ.get("POTSIM_MINIMISE_BUDGET", "150" if tier == "quick" else "600"))
+    min_classes = int(os.environ.get("POTSIM_MINIMISE_CLASSES", "4"))
+    t_min0 = time.monotonic()
+    n_minimised = 0
     for cls in sorted(by_class):
         k = core.match_known(known, mod.PROP, cls)
         if k is not None:
             known_hit.setdefault(k["class"], [k, 0])[1] += len(by_class[cls])
             continue
         unlisted += 1
-        first = by_class[cls][0]
+        first = min(by_class[cls], key=lambda x: len(core.cjson(x["scenario"])))
         sc = first["scenario"]
         tried = 0
         msc = sc
-        if not a.no_minimise and hasattr(mod, "minimise"):
+        left = min_budget - (time.monotonic() - t_min0)
+        if not a.no_minimise and hasattr(mod, "minimise") and n_minimised < min_classes and left > 5:
+            n_minimised += 1
             try:
-                msc, tried = mod.minimise(sc, cls, scratch)
+                msc, tried = mod.minimise(sc, cls, scratch, budget_s=min(left, min_budget / 2.0))
                 v2, _ = mod.replay(msc, scratch)
                 if not any(x["class"] == cls for x in v2):
                     agg["extra"].setdefault("minimiser_nonreproducing", []).append(cls)
